@@ -34,17 +34,17 @@ type archiveExpect struct {
 
 // Case is one line emitted by TLC.
 type Case struct {
-	Raw     []string                 `json:"raw"`
-	Clean   []string                 `json:"clean"`
-	Rooted  bool                     `json:"rooted"`
-	Valid   bool                     `json:"valid"`
-	IsRoot  bool                     `json:"isroot"`
-	Expect  map[string]string        `json:"expect"`
+	Raw    []string          `json:"raw"`
+	Clean  []string          `json:"clean"`
+	Rooted bool              `json:"rooted"`
+	Valid  bool              `json:"valid"`
+	IsRoot bool              `json:"isroot"`
+	Expect map[string]string `json:"expect"`
 	// FilterNotHides: the negated filter view hides the object at the cleaned path
 	FilterNotHides bool `json:"filterNotHides"`
 	// PrefixExpect: what a nested view whose prefix is this raw path must do with every call
-	PrefixExpect string `json:"prefixExpect"`
-	Archive map[string]archiveExpect `json:"archive"`
+	PrefixExpect string                   `json:"prefixExpect"`
+	Archive      map[string]archiveExpect `json:"archive"`
 }
 
 type input struct {
